@@ -20,6 +20,17 @@ use std::collections::BTreeSet;
 use std::fmt::Display;
 use std::panic::{catch_unwind, AssertUnwindSafe};
 
+/// success-like outcome counter for the coverage floors of conf "floors" (`ok:*`): the last case
+/// answered `ok` (and, for `full`, returned every score: no `none` token)
+fn tally(em: &mut Em, key: &str, full: bool) {
+    if em.only.is_some() {
+        return;
+    }
+    if em.outs.last().map_or(false, |o| o.starts_with("ok") && !(full && o.contains("none"))) {
+        em.count(&format!("ok:{}", key));
+    }
+}
+
 fn h32c(x: f32) -> String {
     if x.is_nan() { "nan".into() } else { hex32(x) }
 }
@@ -218,6 +229,7 @@ fn op_cm<L: CmLabel>(em: &mut Em, form: usize, ty: &str, kind: &str, pred: Vec<L
     }
     let valid = pred.len() == truth.len() && !pred.is_empty();
     let class = format!("{}:{}", prefix, kind);
+    let okkey = if form == 0 { format!("cm:{}", kind.split(':').next().unwrap_or("")) } else { format!("cmf:{}", forms::CM_FORM_NAMES[form]) };
     let body = |ctx: &mut Ctx| {
         let o = match observe_cm(form, &pred, &truth, tok) {
             Ok(o) => o,
@@ -242,6 +254,9 @@ fn op_cm<L: CmLabel>(em: &mut Em, form: usize, ty: &str, kind: &str, pred: Vec<L
         em.case_valid(op, &class, body)
     } else {
         em.case(op, body)
+    }
+    if valid {
+        tally(em, &okkey, false);
     }
 }
 
@@ -458,6 +473,9 @@ fn op_roc(em: &mut Em, form: usize, kind: &str, s: Vec<f32>, y: Vec<bool>, perm:
     } else {
         em.case(op, body)
     }
+    if covered {
+        tally(em, &(if form == 0 { "roc:covered".to_string() } else { format!("rocf:{}", forms::BIN_FORM_NAMES[form]) }), false);
+    }
 }
 
 const LATTICE5: [f32; 5] = [0.0, 0.25, 0.5, 0.75, 1.0];
@@ -599,6 +617,9 @@ fn op_logloss(em: &mut Em, form: usize, kind: &str, s: Vec<f32>, y: Vec<bool>, p
         em.case_valid(op, &class, body)
     } else {
         em.case(op, body)
+    }
+    if valid {
+        tally(em, &class, false);
     }
 }
 
@@ -831,6 +852,9 @@ fn oracle_reg_col(ctx: &mut Ctx, prefix: &str, w: usize, col: usize, a: &[f64], 
 /// `form` 0: arrays against arrays (ops `reg` / `regt`); other forms (ops `regf` / `regtf`):
 /// datasets as receiver and / or argument, views, an n x 1 matrix through the multi-target trait
 fn op_reg(em: &mut Em, form: usize, exact: bool, kind: &str, w: usize, p: usize, a: Vec<Vec<f64>>, b: Vec<Vec<f64>>, perm: Vec<usize>) {
+    // a reversed view is summed by ndarray in memory order, i.e. backwards: the left-to-right model
+    // agrees only up to rounding there, so that form is always compared with tolerance
+    let exact = exact && !(p == 1 && forms::REG1_FORM_NAMES[form].contains("reversed"));
     let name = match (exact, form == 0) {
         (true, true) => "reg",
         (false, true) => "regt",
@@ -868,7 +892,10 @@ fn op_reg(em: &mut Em, form: usize, exact: bool, kind: &str, w: usize, p: usize,
         }
         reg_line(w, exact, &obs)
     };
-    em.case(op, body)
+    em.case(op, body);
+    if n > 0 {
+        tally(em, &(if form == 0 { format!("{}:f{}", name, w) } else { format!("{}:{}", name, fname) }), true);
+    }
 }
 
 /// lattice inputs: multiples of 1/4 in [-8, 8] (+16 now and then); every sum, square and
@@ -1079,6 +1106,9 @@ fn op_sil(em: &mut Em, form: usize, w: usize, kind: &str, x: Vec<Vec<f64>>, l: V
     } else {
         em.case(op, body)
     }
+    if covered {
+        tally(em, &class, false);
+    }
 }
 
 /// `wide`: up to 6 dimensions and 7 clusters, half-integer or generic coordinates
@@ -1142,23 +1172,30 @@ fn gen_sil(em: &mut Em, rng: &mut Rng) {
 
 // ------------------------------------------------------------------ Pearson
 
-fn observe_pearson(w: usize, x: &[Vec<f64>], p: usize) -> Vec<f64> {
+fn observe_pearson(form: usize, w: usize, x: &[Vec<f64>], p: usize) -> Vec<f64> {
     let n = x.len();
     if w == 64 {
         let rec = Array2::from_shape_fn((n, p), |(i, j)| x[i][j]);
-        DatasetBase::from(rec).pearson_correlation().get_coeffs().to_vec()
+        forms::call_pearson::<f64>(form, rec)
     } else {
         let rec = Array2::from_shape_fn((n, p), |(i, j)| x[i][j] as f32);
-        DatasetBase::from(rec).pearson_correlation().get_coeffs().iter().map(|v| *v as f64).collect()
+        forms::call_pearson::<f32>(form, rec).iter().map(|v| *v as f64).collect()
     }
 }
 
-/// ops `pearson` (f64) and `pearson32` (f32 records; values exactly representable in f32)
-fn op_pearson(em: &mut Em, w: usize, kind: &str, x: Vec<Vec<f64>>, p: usize, perm: Vec<usize>) {
-    let name = if w == 32 { "pearson32" } else { "pearson" };
-    let op = format!("{} x={} p={}", name, list2(x.iter().map(|r| r.iter()), |v| hex64(*v)), p);
+/// ops `pearson` (f64), `pearson32` (f32 records; values exactly representable in f32) and
+/// `pearsonf form=k` (f64; column-major records, strided views, a dataset that also has targets)
+fn op_pearson(em: &mut Em, form: usize, w: usize, kind: &str, x: Vec<Vec<f64>>, p: usize, perm: Vec<usize>) {
+    let name = if form != 0 { "pearsonf" } else if w == 32 { "pearson32" } else { "pearson" };
+    let args = format!("x={} p={}", list2(x.iter().map(|r| r.iter()), |v| hex64(*v)), p);
+    let op = if form != 0 { format!("pearsonf form={} {}", form, args) } else { format!("{} {}", name, args) };
     let n = x.len();
     em.count(&format!("{}:{}:p={}", name, kind, if p <= 4 { p.to_string() } else { "5+".to_string() }));
+    if form != 0 {
+        em.count(&format!("pearsonf:form={}", forms::PEARSON_FORM_NAMES[form]));
+    }
+    let class_s = if form != 0 { format!("pearsonf:{}", forms::PEARSON_FORM_NAMES[form]) } else { name.to_string() };
+    let name = class_s.as_str();
     // Error bound.  With u the unit roundoff and M = max|x|, the centred columns carry an absolute error
     // <= (n+1)u*M, the dot products / variances a relative error <= (n+2)u of sums of non-negative or
     // Cauchy-Schwarz-bounded terms, so the absolute error of r = cov/(s_i s_j) is <= c*(n+4)*u*(1 + M/s)
@@ -1171,7 +1208,7 @@ fn op_pearson(em: &mut Em, w: usize, kind: &str, x: Vec<Vec<f64>>, p: usize, per
     let has_offset = x.iter().flatten().any(|v| v.abs() > 50.0);
     let tol = if w == 64 { 1e-9 } else if has_offset { 2e-4 } else { 5e-5 };
     let body = |ctx: &mut Ctx| {
-        let got = observe_pearson(w, &x, p);
+        let got = observe_pearson(form, w, &x, p);
         // textbook: cov / (std std), pairs (i, j), i < j, row-major
         let col = |j: usize| -> Vec<f64> { x.iter().map(|r| r[j]).collect() };
         let mut want = vec![];
@@ -1190,12 +1227,13 @@ fn op_pearson(em: &mut Em, w: usize, kind: &str, x: Vec<Vec<f64>>, p: usize, per
             ctx.require(got.iter().zip(want.iter()).all(|(g, w)| close(*g, *w, tol)), "pearson_def", name, || format!("coefficients {:?} want {:?}", got, want));
             // one permutation applied to all features together (a permutation of the observations)
             let xp: Vec<Vec<f64>> = perm.iter().map(|i| x[*i].clone()).collect();
-            let got2 = observe_pearson(w, &xp, p);
+            let got2 = observe_pearson(form, w, &xp, p);
             ctx.require(got2.len() == got.len() && got.iter().zip(got2.iter()).all(|(g, h)| close(*g, *h, tol)), "perm_invariant", name, || format!("permuted observations {:?} give {:?} instead of {:?}", perm, got2, got));
         }
         format!("ok {}", list(got.iter(), |v| tl(*v)))
     };
-    em.case_valid(op, name, body)
+    em.case_valid(op, name, body);
+    tally(em, name, false);
 }
 
 fn random_pearson(rng: &mut Rng, w: usize) -> (Vec<Vec<f64>>, usize, &'static str) {
@@ -1237,14 +1275,23 @@ fn gen_pearson(em: &mut Em, rng: &mut Rng) {
         let (x, p, kind) = random_pearson(rng, 64);
         let mut perm: Vec<usize> = (0..x.len()).collect();
         rng.shuffle(&mut perm);
-        op_pearson(em, 64, kind, x, p, perm);
+        op_pearson(em, 0, 64, kind, x, p, perm);
     }
     let reps = if em.thorough() { 2000 } else { 150 };
     for _ in 0..reps {
         let (x, p, kind) = random_pearson(rng, 32);
         let mut perm: Vec<usize> = (0..x.len()).collect();
         rng.shuffle(&mut perm);
-        op_pearson(em, 32, kind, x, p, perm);
+        op_pearson(em, 0, 32, kind, x, p, perm);
+    }
+    let reps = if em.thorough() { 500 } else { 50 };
+    for form in 1..forms::PEARSON_FORMS {
+        for _ in 0..reps {
+            let (x, p, kind) = random_pearson(rng, 64);
+            let mut perm: Vec<usize> = (0..x.len()).collect();
+            rng.shuffle(&mut perm);
+            op_pearson(em, form, 64, kind, x, p, perm);
+        }
     }
 }
 
@@ -1268,7 +1315,7 @@ fn floors(em: &mut Em) {
         add(&[&format!("rocf:form={}", forms::BIN_FORM_NAMES[f])], 250);
     }
     add(&["logloss:"], 300);
-    for f in [0usize, 2, 3, 4] {
+    for f in [0usize, 2, 3, 4, 5, 6] {
         add(&[&format!("loglossf:form={}", forms::BIN_FORM_NAMES[f])], 80);
     }
     add(&["reg:lattice", ":f64:"], 400);
@@ -1276,8 +1323,12 @@ fn floors(em: &mut Em) {
     add(&["reg:lattice", "p=4+"], 5);
     add(&["regt:generic"], 300);
     for f in 1..forms::REG1_FORMS {
-        add(&[&format!("regf:form={}", forms::REG1_FORM_NAMES[f])], 20);
-        add(&[&format!("regtf:form={}", forms::REG1_FORM_NAMES[f])], 10);
+        // the reversed-view form is always sent as `regtf` (see `op_reg`)
+        let rev = forms::REG1_FORM_NAMES[f].contains("reversed");
+        if !rev {
+            add(&[&format!("regf:form={}", forms::REG1_FORM_NAMES[f])], 20);
+        }
+        add(&[&format!("regtf:form={}", forms::REG1_FORM_NAMES[f])], if rev { 30 } else { 10 });
     }
     for f in 1..forms::REGM_FORMS {
         add(&[&format!("regf:form={}", forms::REGM_FORM_NAMES[f])], 20);
@@ -1293,6 +1344,9 @@ fn floors(em: &mut Em) {
     add(&["pearson:"], 250);
     add(&["pearson32:", "p=5+"], 30);
     add(&["pearson32:"], 120);
+    for f in 1..forms::PEARSON_FORMS {
+        add(&[&format!("pearsonf:form={}", forms::PEARSON_FORM_NAMES[f])], 30);
+    }
     let sums: Vec<(String, u64, u64)> = need
         .iter()
         .map(|(subs, min)| (subs.join("*"), em.dist.iter().filter(|(k, _)| subs.iter().all(|s| k.contains(s.as_str()))).map(|(_, v)| *v).sum::<u64>(), *min))
